@@ -1,8 +1,9 @@
 """C04 - compact hash index: every inserted key is found with its value, in every format.
 R1 HashIndex.tla (abstract hash oracles: every bucket assignment x in-bucket hash function x insertion sequence,
 mining incl. failure, eytzinger layout and walk) + MC_Eytz (layout/search for every population <= N);
-R2 Gen_HashIndex (format x value size x population x declared count x order x key shape x error class);
-R3 real builders of the three formats (built twice, byte compare, every key looked up, independent file parser);
+R2 Gen_HashIndex (format x value size x population x declared count x order x key shape x error class x metadata shape);
+R3 real builders of the three formats (built twice, byte compare, every key looked up through the file and through an
+io.ReaderAt with the other legal end-of-data behaviour, metadata read back, independent file parser);
 R4 Trace_HashIndex (BuildAllowed + on-disk eytzinger layout)."""
 from core import Inconclusive, sha
 
@@ -20,13 +21,15 @@ def run(ctx):
         cases = [ctx.replay["case"]]
     elif q:
         big = {"9999", "10001", "20001", "60000"}
+        metas = [c for c in cases if c["meta"] != "none"]
+        cases = [c for c in cases if c["meta"] == "none"]
         special = [c for c in cases if c["special"] != "none"]
         large = [c for c in cases if c["n"] in big and c["special"] == "none" and c["n"] != "60000"]
         lengths = [c for c in cases if c["keys"] in ("lengths", "65535") and c["special"] == "none"]
         rest = [c for c in cases if c["special"] == "none" and c["n"] not in big and c["keys"] not in ("lengths", "65535")]
         ctx.rng.shuffle(rest)
         ctx.rng.shuffle(large)
-        cases = special + lengths + large[:6] + rest[:1150]
+        cases = special + metas + lengths + large[:6] + rest[:1150]
     casep = ctx.write_ndjson("cases.ndjson", cases)
     ov = ctx.overlay(pkg_files={"compactindexsized": ["c04_test.go"]})
     b = ctx.go_build("./compactindexsized", ov, name="ci")
